@@ -283,9 +283,43 @@ def check_long_timedelta(acc, pendulum, z, inst, dsu):
             acc.mismatch("timedelta-operator", f"long/{name}", case, got, list(want))
 
 
+def _naive_env_fresh(arg):
+    """(fresh interpreter started with TZ=<zone>) a naive DateTime is shifted on its OWN clock - whatever the machine's zone
+    does around that wall time: naive receivers on the wall times around the zone's latest transitions x the amount alphabet."""
+    import pendulum
+    acc = core.Acc(ID)
+    trs = [tr for tr in seeds.zone_transitions(arg["zone"]) if 0 < tr[0] < 2000000000][-4:]
+    amounts = _amounts(False)
+    for t, ob, oa in trs:
+        for w in seeds.wall_probes(t, ob, oa) + [(t + ob - 3600) * US, (t + oa + 5400) * US + 1]:
+            acc.c["states"] += 1
+            acc.c["nontrivial"] += 1
+            for i, kw in enumerate(amounts):
+                if i % 2 == (w // US) % 2:
+                    check_case(acc, pendulum, None, w, kw, variants=True)
+    r = acc.result()
+    for v in r["viol"].values():       # a replay needs the process environment of this exploration
+        for cse in v["cases"]:
+            if isinstance(cse.get("case"), dict):
+                cse["case"] = dict(cse["case"], kind="nenv", TZ=arg["zone"])
+    return r
+
+
+def _replay_nenv(case):
+    import pendulum
+    acc = core.Acc(ID)
+    check_case(acc, pendulum, None, case["inst"], case["kw"], variants=True)
+    return acc.result()
+
+
 def run_shard(shard):
     import pendulum
     acc = core.Acc(ID)
+    if shard.get("kind") == "naive-env":
+        for zone in ("Europe/Paris", "America/Sao_Paulo"):
+            acc.absorb(worker.fresh_call("c03", "_naive_env_fresh", {"zone": zone}, {"TZ": zone}))
+        acc.sample({"naive_receivers_with_machine_zone_from_TZ": ["Europe/Paris", "America/Sao_Paulo"]})
+        return acc.result()
     amounts = _amounts(shard.get("full_alphabet", False))
     if shard.get("kind") == "chains":
         from .. import chain
@@ -339,6 +373,12 @@ def replay_case(case, acc):
         from .. import chain
         chain.replay(acc, pendulum, case, {'fixed'})
         return
+    if case.get("kind") == "nenv":
+        if worker.CTX["config"].get("TZ") != case["TZ"]:
+            acc.absorb(worker.fresh_call("c03", "_replay_nenv", case, {"TZ": case["TZ"]}))
+        else:
+            check_case(acc, pendulum, None, case["inst"], case["kw"], variants=True)
+        return
     if case.get("kind") == "ltd":
         check_long_timedelta(acc, pendulum, case["z"], case["inst"], tuple(case["dsu"]))
         return
@@ -363,7 +403,7 @@ def plan(tier, seed):
     # month-length clamp of add_duration even for fixed-length amounts
     ez = ["UTC", None, 19800, "America/New_York", "Europe/Paris", "Pacific/Apia"]
     edges = [{"zones": [z], "thorough": thorough, "limit": 1, "seed": seed, "edges": True} for z in ez]
-    shards = edges + shards
+    shards = edges + shards + [{"kind": "naive-env"}]
     plans = [({"ext": 1, "tz": "sys"}, shards)]
     if thorough:
         plans.append(({"ext": 0, "tz": "pkg"}, shards))
